@@ -306,7 +306,7 @@ class TT():
             raise InvalidArguments(
                 "The index of the core mst match the dimensionality.")
         if self.__is_ttm:
-            if core.shape[0] != self.__R[k] or core.shape[3] != self.__R[k+1] or len(core.shape) != 4:
+            if len(core.shape) != 4 or core.shape[0] != self.__R[k] or core.shape[3] != self.__R[k+1]:
                 raise InvalidArguments(
                     "The given core must match the the ranks and the dimensionality.")
             else:
@@ -314,7 +314,7 @@ class TT():
                 self.__M[k] = core.shape[1]
                 self.__N[k] = core.shape[2]
         else:
-            if core.shape[0] != self.__R[k] or core.shape[2] != self.__R[k+1] or len(core.shape) != 3:
+            if len(core.shape) != 3 or core.shape[0] != self.__R[k] or core.shape[2] != self.__R[k+1]:
                 raise InvalidArguments(
                     " The given core must match the the ranks and the dimensionality.")
             else:
